@@ -9,21 +9,24 @@ import (
 
 	"github.com/coregx/coregex"
 	"github.com/coregx/coregex/meta"
+	"github.com/coregx/coregex/nfa"
 
 	"verif/gen"
 	"verif/guard"
 	"verif/obs"
 )
 
-const c07MaxLen = 1 << 20
+const c07MaxLen = 4 << 20
 
 func init() {
-	register(&Prop{ID: "C07", N: 60000, Quick: 1500, StallSec: 240,
+	register(&Prop{ID: "C07", N: 60000, Quick: 1500, QuickFixed: 9, StallSec: 240,
 		Assume: []string{"a fault on a PROT_NONE page next to the haystack, or a store to its PROT_READ data pages, is turned into a panic by debug.SetPanicOnFault (self-test Probe() at start-up; the run is INCONCLUSIVE without it)", "non-termination is decided by the supervisor's per-case watchdog (240 s without progress, 1000× the median case) and then confirmed by replay; a panic or fatal error by the worker's exit status and journal"},
 		Rule:   "case i = (a) the arbitrary pattern string P(i) (random bytes, token soup, mutated valid patterns, invalid UTF-8, nesting/repeat/size limit families): Compile, CompilePOSIX, meta.Compile and QuoteMeta must return; when it compiles, it is searched too; (b) the pattern of G(D,i) with its 6 haystacks of all three input regions and, for every 40th case, a haystack of 70 000 – 1 048 576 bytes (past the backtracker's visited caps and the windowed fallbacks). Every haystack is placed flush against a PROT_NONE page (right and left alternately) on PROT_READ data pages, strings are views of the same guarded bytes; every public search/replace/split/iterator method of Regex and the offset-taking methods of meta.Engine (at in {0, mid, len, len+1}) are called; every returned value must satisfy the well-formedness predicates (span order and bounds, groups inside group 0 or -1/-1, len(submatch)=NumSubexp+1, FindAll ordered/non-overlapping/progressing, returned slices alias the input at the reported offsets, haystack bytes unchanged); one evaluation = one checked call; distinct_nontrivial = distinct (pattern, haystack, API) whose result carried at least one span",
 		Init:   initC07,
 		Run:    runC07})
 }
+
+var c07Fixed = []string{`(\w{2,8})+`, `^(?:\pL+ )+\d`, `^(\pL|\d)+$`, `^(.+)-(\pL+)$`, `(\pL+)\s(\pL+)`, `((\pL{2})+)\d`, `(\w\w?\w?\w?\w?\w?\w?)+`, `([a-z]{1,12}\d?)+`, `(\w\w?)`}
 
 func initC07(w *W) {
 	guard.Enable()
@@ -463,6 +466,16 @@ func runC07(w *W, i uint64) {
 	}
 	// (b) generated valid pattern with derived haystacks
 	c := gen.D(i)
+	fixedCase := false
+	if i < uint64(len(c07Fixed)) {
+		// fixed part of every run: backtracker-strategy patterns whose capacity limit lies below 1 MiB
+		fixedCase = true
+		c.Pattern = c07Fixed[i]
+		c.Region = gen.ASCII
+		if re1, ok := gen.Valid(c.Pattern); ok {
+			c.Haystacks = gen.Haystacks(gen.Rng("C07f", i), re1, gen.ASCII, 6)
+		}
+	}
 	re, err := coregex.Compile(c.Pattern)
 	if err != nil {
 		w.Count("event:D-pattern-not-compiled", 1)
@@ -471,16 +484,31 @@ func runC07(w *W, i uint64) {
 	eng, _ := meta.Compile(c.Pattern)
 	hs := append([][]byte(nil), c.Haystacks...)
 	bigFrom := len(hs)
-	if i%40 == 0 {
+	// size classes: every 40th case a large haystack; for backtracker-strategy patterns (every 6th of them, and the
+	// fixed cases below) the size just above the backtracker's capacity 32M/states, where the windowed /
+	// bidirectional-DFA / PikeVM fallbacks take over
+	oversize := 0
+	if st := strategyOf(c.Pattern); st == "UseBoundedBacktracker" && (fixedCase || i%6 == 0) {
+		if n0, err := nfa.NewDefaultCompiler().Compile(c.Pattern); err == nil {
+			if lim := (32<<20)/n0.States() + 1000; lim <= c07MaxLen {
+				oversize = lim
+			}
+		}
+	}
+	if i%40 == 0 || oversize > 0 {
 		r := gen.Rng("C07b", i)
 		re0, _ := gen.Valid(c.Pattern)
 		sizes := []int{70000, 140000, 300000, 1 << 20}
 		n := sizes[r.IntN(len(sizes))]
+		if oversize > 0 {
+			n = oversize
+			w.Count("event:oversize-haystack-for-backtracker", 1)
+		}
 		alpha := gen.Alphabet(re0, c.Region)
 		big := make([]byte, 0, n)
 		smp := gen.Sample(r, re0, c.Region)
 		for len(big) < n {
-			if r.IntN(50) == 0 && len(smp) > 0 && len(big)+len(smp) <= n {
+			if (r.IntN(50) == 0 || (oversize > 0 && r.IntN(3) == 0)) && len(smp) > 0 && len(big)+len(smp) <= n {
 				big = append(big, smp...)
 			} else {
 				big = append(big, alpha[r.IntN(len(alpha))]...)
